@@ -148,6 +148,150 @@ theorem epoch_fires_once_after_reset (et : ET) (lastTick dur : Nat) (ho : lastTi
   have := epoch_fires_once (reset et lastTick dur) us rfl
   simpa [reset, Nat.mod_eq_of_lt ho] using this
 
+/-! ### Whole histories, and calls that overlap a running `UpdateTime`
+
+The theorems above are for every prior state, so they hold inside any history; the statements below say
+so explicitly for a history of atomic calls (`runAtoms`), and for a history in which `Reset`s and
+`UpdateTime`s are issued while a handler of a running `UpdateTime` executes (`runEvs`): such a call is
+linearised right after the `UpdateTime` it overlaps (`lin`), and between any reset of the linearised
+history — overlapped ones included — and the next one, every handler fires exactly once, at the first
+block time reaching its schedule. -/
+
+theorem runAtoms_length (et : ET) (as : List Atom) : (runAtoms et as).length = as.length := by
+  induction as generalizing et with
+  | nil => rfl
+  | cons a as ih => simp [runAtoms, ih]
+
+theorem runAtoms_append (et : ET) (as bs : List Atom) :
+    runAtoms et (as ++ bs) = runAtoms et as ++ runAtoms (afterAtoms et as) bs := by
+  induction as generalizing et with
+  | nil => rfl
+  | cons a as ih => simp [runAtoms, afterAtoms, ih]
+
+theorem afterAtoms_append (et : ET) (as bs : List Atom) :
+    afterAtoms et (as ++ bs) = afterAtoms (afterAtoms et as) bs := by
+  induction as generalizing et with
+  | nil => rfl
+  | cons a as ih => simp [afterAtoms, ih]
+
+theorem runAtoms_upds (et : ET) (us : List Nat) : runAtoms et (us.map .upd) = updates et us := by
+  induction us generalizing et with
+  | nil => rfl
+  | cons u us ih => simp [runAtoms, stepAtom, updates, ih]
+
+/-- the outputs of the `n` calls that follow position `k` of a history -/
+def segment (k n : Nat) (l : List (Bool × List Bool)) : List (Bool × List Bool) := (l.drop k).take n
+
+theorem drop_succ_append_of_length {α : Type} (a b : List α) (k : Nat) (h : a.length = k) :
+    (a ++ b).drop (k + 1) = b.drop 1 := by
+  subst h
+  induction a with
+  | nil => rfl
+  | cons x a ih => simp
+
+theorem take_append_of_length {α : Type} (a b : List α) (n : Nat) (h : a.length = n) : (a ++ b).take n = a := by
+  subst h
+  induction a with
+  | nil => simp
+  | cons x a ih => simp
+
+/-- the calls between a reset and whatever follows the block times `us` observed after it -/
+theorem segment_after_reset (et : ET) (pre : List Atom) (lt dur : Nat) (us : List Nat) (rest : List Atom) :
+    segment (pre.length + 1) us.length (runAtoms et (pre ++ .rst lt dur :: (us.map .upd ++ rest))) =
+      updates (reset (afterAtoms et pre) lt dur) us := by
+  unfold segment
+  rw [runAtoms_append, drop_succ_append_of_length _ _ _ (runAtoms_length et pre)]
+  simp only [runAtoms, stepAtom, List.drop_succ_cons, List.drop_zero]
+  rw [runAtoms_append, runAtoms_upds]
+  exact take_append_of_length _ _ _ (updates_length _ us)
+
+/-- Every history of atomic calls, every reset in it, every sequence of block times observed after that
+reset before the next one: the new-epoch handlers fire exactly at the first block time reaching
+`lastTick + dur`, never again. -/
+theorem history_epoch_once (et : ET) (pre : List Atom) (lt dur : Nat) (us : List Nat) (rest : List Atom)
+    (ho : lt + dur < M64) :
+    (segment (pre.length + 1) us.length (runAtoms et (pre ++ .rst lt dur :: (us.map .upd ++ rest)))).map (·.1) =
+      firstOnly (us.map fun u => decide (lt + dur ≤ u)) := by
+  rw [segment_after_reset]
+  exact epoch_fires_once_after_reset _ lt dur ho us
+
+/-- … and each sub-epoch handler with `mul ≤ div` exactly at the first block time reaching its fraction. -/
+theorem history_delta_once (et : ET) (pre : List Atom) (lt dur : Nat) (us : List Nat) (rest : List Atom)
+    (i : Nat) (dh : DH) (hi : (afterAtoms et pre).dhs[i]? = some dh) (hfrac : dh.mul ≤ dh.div) (hdiv : 0 < dh.div)
+    (ho1 : lt + dur < M64) (ho2 : dur * dh.mul < M64) :
+    deltaFlags i (segment (pre.length + 1) us.length (runAtoms et (pre ++ .rst lt dur :: (us.map .upd ++ rest)))) =
+      firstOnly (us.map fun u => decide (lt + dur * dh.mul / dh.div ≤ u)) := by
+  rw [segment_after_reset]
+  exact delta_fires_once _ i dh hi lt dur hfrac hdiv ho1 ho2 us
+
+/-- A history with overlapped calls shows exactly what its linearisation shows. -/
+theorem runEvs_eq_lin (et : ET) (evs : List Ev) : runEvs et evs = runAtoms et (lin et evs) := by
+  induction evs generalizing et with
+  | nil => rfl
+  | cons e es ih => simp only [runEvs, lin, runAtoms_append, ih]
+
+/-- Exactly once over histories with overlapped calls: wherever the linearised history has a reset (issued
+on its own or from inside a running handler) followed by block times `us` (observed by `UpdateTime` calls
+issued on their own or from inside a running handler), the new-epoch handlers fire exactly at the first of
+them reaching `lastTick + dur`. -/
+theorem overlap_epoch_once (et : ET) (evs : List Ev) (pre : List Atom) (lt dur : Nat) (us : List Nat) (rest : List Atom)
+    (hlin : lin et evs = pre ++ .rst lt dur :: (us.map .upd ++ rest)) (ho : lt + dur < M64) :
+    (segment (pre.length + 1) us.length (runEvs et evs)).map (·.1) = firstOnly (us.map fun u => decide (lt + dur ≤ u)) := by
+  rw [runEvs_eq_lin, hlin]
+  exact history_epoch_once et pre lt dur us rest ho
+
+theorem overlap_delta_once (et : ET) (evs : List Ev) (pre : List Atom) (lt dur : Nat) (us : List Nat) (rest : List Atom)
+    (hlin : lin et evs = pre ++ .rst lt dur :: (us.map .upd ++ rest))
+    (i : Nat) (dh : DH) (hi : (afterAtoms et pre).dhs[i]? = some dh) (hfrac : dh.mul ≤ dh.div) (hdiv : 0 < dh.div)
+    (ho1 : lt + dur < M64) (ho2 : dur * dh.mul < M64) :
+    deltaFlags i (segment (pre.length + 1) us.length (runEvs et evs)) =
+      firstOnly (us.map fun u => decide (lt + dur * dh.mul / dh.div ≤ u)) := by
+  rw [runEvs_eq_lin, hlin]
+  exact history_delta_once et pre lt dur us rest i dh hi hfrac hdiv ho1 ho2
+
+/-- `firstOnly` has exactly one `true` if the list has one, none otherwise: "exactly once". -/
+theorem firstOnly_count (l : List Bool) : (firstOnly l).count true = if true ∈ l then 1 else 0 := by
+  induction l with
+  | nil => rfl
+  | cons b r ih =>
+    cases b with
+    | true =>
+      have : (r.map fun _ => false).count true = 0 := by
+        rw [List.count_eq_zero]; simp
+      simp [firstOnly, this]
+    | false => simp [firstOnly, ih]
+
+/-- A `Reset` issued while a handler of `UpdateTime(t)` runs is not lost: whatever that `UpdateTime` marks
+as done afterwards, the epoch armed by the reset fires exactly once, at the first block time reaching it. -/
+theorem overlapped_reset_rearms (et : ET) (t : Nat) (site : Site) (lt dur : Nat)
+    (hs : siteFired site (update et t).2.1 (update et t).2.2 = true) (ho : lt + dur < M64) (us : List Nat) :
+    ((updates (afterAtoms et ((Ev.overlapped t site (.rst lt dur)).atoms et)) us).map (·.1)).count true =
+      if ∃ u ∈ us, lt + dur ≤ u then 1 else 0 := by
+  have e : afterAtoms et ((Ev.overlapped t site (.rst lt dur)).atoms et) = reset (update et t).1 lt dur := by
+    simp [Ev.atoms, hs, afterAtoms, stepAtom]
+  rw [e, epoch_fires_once_after_reset _ lt dur ho us, firstOnly_count]
+  simp
+
+/-- An `UpdateTime` issued while a handler of `UpdateTime(t)` runs never makes the new-epoch handlers fire a
+second time: over the two calls together they fire at most once. -/
+theorem overlapped_update_no_double_fire (et : ET) (t : Nat) (site : Site) (t2 : Nat) (hd : et.done = false) :
+    ((runAtoms et ((Ev.overlapped t site (.upd t2)).atoms et)).map (·.1)).count true ≤ 1 := by
+  have key : ∀ us : List Nat, ((runAtoms et (us.map .upd)).map (·.1)).count true ≤ 1 := by
+    intro us
+    rw [runAtoms_upds, epoch_fires_once et us hd, firstOnly_count]
+    split <;> omega
+  simp only [Ev.atoms]
+  split
+  · exact key [t, t2]
+  · exact key [t]
+
+example : runEvs (reset (new [(1, 2), (1, 1)]) 0 6)
+    [.overlapped 6 .epoch (.rst 6 4), .atom (.upd 8), .atom (.upd 10), .atom (.upd 12)] =
+    [(true, [true, true]), (false, [false, false]), (false, [true, false]), (true, [false, true]), (false, [false, false])] := by decide
+example : runEvs (reset (new [(1, 2)]) 0 6) [.overlapped 6 (.delta 0) (.upd 6), .atom (.upd 7)] =
+    [(true, [true]), (false, [false]), (false, [false])] := by decide
+example : lin (reset (new [(1, 2)]) 0 6) [.overlapped 2 .epoch (.rst 9 9), .atom (.upd 7)] = [.upd 2, .upd 7] := by decide
+
 /-- Non-vacuity and the excluded case executed: a 3/2 fraction (`mul > div`) never fires because the
 closed epoch returns early. -/
 example : deltaFlags 0 (updates (reset (new [(1, 2), (3, 2)]) 10 10) [12, 15, 14, 20, 30]) = [false, true, false, false, false] := by decide
